@@ -40,4 +40,46 @@ KERNELS = [
       r"auto features_per_thread\(.*?return\s+(.*?);",
       [(r"tensor_size_t\{1\}", "1"), (r"features\.size\(\)", "fsize")],
       [("fsize", "Z"), ("concurrency", "Z")], "c10", ["C10"]),
+    # ---- extension (C10_Ext): selection criteria and their arguments -------------------------------------------------------
+    # AIC / AICc / BIC of include/nano/core/stats.h: floating-point expressions, translated structurally with the logarithms as
+    # named inputs (typed over Z like every kernel; C10_Ext.v pins the shape and reads it over the reals)
+    K("src_c10_aic", "include/nano/core/stats.h",
+      r"inline double AIC\(.*?return\s+(.*?);",
+      [(r"std::log\(RSS\)", "logrss"), (r"std::log\(dn\)", "logn"), (r"\b(\d+)\.0\b", r"\1")],
+      [("dk", "Z"), ("dn", "Z"), ("logrss", "Z"), ("logn", "Z")], "c10", ["C10"]),
+    K("src_c10_aicc", "include/nano/core/stats.h",
+      r"inline double AICc\(.*?return\s+(.*?);",
+      [(r"AIC\(RSS, k, n\)", "aic"), (r"\b(\d+)\.0\b", r"\1")],
+      [("aic", "Z"), ("dk", "Z"), ("dn", "Z")], "c10", ["C10"]),
+    K("src_c10_bic", "include/nano/core/stats.h",
+      r"inline double BIC\(.*?return\s+(.*?);",
+      [(r"std::log\(RSS / dn\)", "logrssn"), (r"std::log\(dn\)", "logn"), (r"\b(\d+)\.0\b", r"\1")],
+      [("dk", "Z"), ("dn", "Z"), ("logrssn", "Z"), ("logn", "Z")], "c10", ["C10"]),
+    # the number of parameters k and of samples n handed to make_score by every learner
+    K("src_c10_k_stump", "src/wlearner/stump.cpp", r"const auto k\s*=\s*(.*?);",
+      [(r"::nano::size\(m_acc_sum\.tdims\(\)\)", "tsize")], [("tsize", "Z")], "c10", ["C10"]),
+    K("src_c10_n_stump", "src/wlearner/stump.cpp", r"const auto n\s*=\s*(.*?);",
+      [(CAST, ""), (r"m_acc_sum\.x0\(\)", "x0sum")], [("x0sum", "Z"), ("missing_cnt", "Z")], "c10", ["C10"]),
+    K("src_c10_k_hinge", "src/wlearner/hinge.cpp", r"const auto k\s*=\s*(.*?);",
+      [(r"::nano::size\(m_acc_sum\.tdims\(\)\)", "tsize")], [("tsize", "Z")], "c10", ["C10"]),
+    K("src_c10_n_hinge_left", "src/wlearner/hinge.cpp", r"const auto n\s*=\s*(.*?);",
+      [(CAST, ""), (r"x0_neg\(\)", "x0neg"), (r"x0_pos\(\)", "x0pos")],
+      [("x0neg", "Z"), ("x0pos", "Z"), ("missing_cnt", "Z")], "c10", ["C10"]),
+    K("src_c10_n_hinge_right", "src/wlearner/hinge.cpp", r"const auto n\s*=\s*(.*?);",
+      [(CAST, ""), (r"x0_neg\(\)", "x0neg"), (r"x0_pos\(\)", "x0pos")],
+      [("x0neg", "Z"), ("x0pos", "Z"), ("missing_cnt", "Z")], "c10", ["C10"], pick=1),
+    K("src_c10_k_affine", "src/wlearner/affine.cpp", r"const auto k\s*=\s*(.*?);",
+      [(r"::nano::size\(tdims\(\)\)", "tsize")], [("tsize", "Z")], "c10", ["C10"]),
+    K("src_c10_k_dense", "src/wlearner/table.cpp", r"const auto k\s*=\s*(.*?);",
+      [(r"::nano::size\(tdims\(\)\)", "tsize")], [("bins", "Z"), ("tsize", "Z")], "c10", ["C10"]),
+    K("src_c10_k_kbest", "src/wlearner/table.cpp", r"const auto k\s*=\s*(.*?);",
+      [(r"::nano::size\(tdims\(\)\)", "tsize")], [("kbest", "Z"), ("tsize", "Z")], "c10", ["C10"], pick=1),
+    K("src_c10_k_ksplit", "src/wlearner/table.cpp", r"const auto k\s*=\s*(.*?);",
+      [(r"::nano::size\(tdims\(\)\)", "tsize")], [("ksplit", "Z"), ("tsize", "Z")], "c10", ["C10"], pick=2),
+    # score_ksplit(): number of groups of trial ic, and the relabelling of accumulator_t::cluster() after merging cluster2 into cluster1
+    K("src_c10_ksplit_groups", "src/wlearner/table.cpp", r"const auto ksplit\s*=\s*(.*?);",
+      [], [("bins", "Z"), ("ic", "Z")], "c10", ["C10"]),
+    # stump_wlearner_t::split (used by every node of the decision tree): the side of a value
+    K("src_c10_stump_side", "src/wlearner/stump.cpp", r"cluster\.assign\(samples\(i\),\s*(.*?)\);",
+      [], [("value", "Z"), ("threshold", "Z")], "c10", ["C10"]),
 ]
